@@ -7,7 +7,7 @@ EXC_OBJS := $(EXC_OBJD)/exc_ref.o $(EXC_OBJD)/exc_ares.o $(EXC_OBJD)/exc_gen.o $
 # the reference decoder is compiled WITHOUT any c-ares include path: it cannot use library code
 $(EXC_OBJD)/exc_ref.o: $(EXC_SRC)exc_ref.cc $(EXC_SRC)exc_ref.h
 	@mkdir -p $(EXC_OBJD)
-	@clang++ -std=c++17 -O1 -g -fno-omit-frame-pointer -fsanitize=address,undefined -fno-sanitize-recover=undefined -I$(EXC_SRC) -c $< -o $@
+	@$(CXX) -std=c++17 $(ASANF) -I$(EXC_SRC) -c $< -o $@
 
 $(EXC_OBJD)/%.o: $(EXC_SRC)%.cc $(EXC_SRC)exc.h $(EXC_SRC)exc_ref.h $(EXC_SRC)common.h $(B)/cfg/ares_config.h
 	@mkdir -p $(EXC_OBJD)
